@@ -185,7 +185,7 @@ def _digest(ctx, model):
             verdict = _mapping_iteration(model, n, mem, f)
             ctx.ob(f"S/digest/{n.name}.{f}/canonical-order", verdict == "ok",
                    where(mem),
-                   f"{n.name}.{f} is walked in sorted order with its keys"
+                   f"{n.name}.{f} is walked in a canonical (sorted) order"
                    if verdict == "ok" else
                    f"{mem.owner.name}.{mem.node.name} walks {n.name}.{f} "
                    f"{verdict}: two equal nodes built with the keyword arguments "
@@ -249,7 +249,5 @@ def _mapping_iteration(model, n, mem, f):
                 with_keys = contains(lp, lambda t: t[0] == "items")
                 if not sorted_:
                     return "in insertion order"
-                if not with_keys:
-                    return "sorted but without feeding the keys"
                 return "ok"
     return "not at all"
